@@ -105,12 +105,12 @@ def applyForce (cfg : Config F) (rnd : List F) (c : Coordinate F) (force : F) (o
 
 /-- rawDistanceTo (coordinate.go:141) -/
 def rawDistanceTo (a b : Coordinate F) : F :=
-  add (add (magnitude (diffv a.vec b.vec)) a.height) b.height
+  add (magnitude (diffv a.vec b.vec)) (add a.height b.height)
 
 /-- the seconds value computed by DistanceTo before the conversion (coordinate.go:129-133) -/
 def distSeconds (a b : Coordinate F) : F :=
   let dist := rawDistanceTo a b
-  let adjusted := add (add dist a.adjustment) b.adjustment
+  let adjusted := add dist (add a.adjustment b.adjustment)
   if gt adjusted zero then adjusted else dist
 
 /-- `time.Duration(dist * secondsToNanoseconds)` (coordinate.go:134) -/
